@@ -14,6 +14,12 @@ def chunkSize : Nat := 10240
 /-- `SessionInit.SIZE_MAX`, the default announced transfer MRU -/
 def sizeMax : Nat := 2 ^ 64 - 1
 
+/-- `_send_segment_size_min` -/
+def segSizeMin : Nat := 10240
+
+/-- the clamp at the end of `_modulate_tx_seg_size` -/
+def clampSeg (raw : Int) (mru : Nat) : Nat := min (max raw (segSizeMin : Int)).toNat mru
+
 structure Cfg where
   passive : Bool := false
   nodeId : Bytes := []
@@ -70,6 +76,8 @@ inductive Ev where
   | advance (ms : Nat)
   | keepaliveTimer
   | idleTimer
+  /-- the segment-size controller produced `raw` (any integer: the float PID arithmetic is not modelled) -/
+  | modulate (raw : Int)
   deriving Repr, DecidableEq, Inhabited
 
 structure PeerInit where
@@ -446,6 +454,10 @@ def step (e : Ep) (ev : Ev) : Res :=
     | some _ =>
       let e1 := { e with idleDeadline := none }
       if e1.inTerm then doClose e1 else sendSessTerm e1 1 false
+  | .modulate raw =>
+    match e.peerInit with
+    | some p => ({ e with sendSegSize := clampSeg raw p.segMru }, [])
+    | none => (e, [])
 
 def run : Ep → List Ev → Ep × List (List Out)
   | e, [] => (e, [])
